@@ -1,6 +1,7 @@
 (* C18: reproducibility across reloads.  See bin/propcfg/C18.py for the status. *)
 From Coq Require Import List Arith Permutation.
 From DD Require Import Model.Circuit Model.Query Proofs.C18Proof.
+From DD Require Import Model.LexerD4 Model.LoadD4 Proofs.LoadD4Ord Proofs.LoadD4Examples.
 Import ListNotations.
 
 (* repaired loader: the order in which missing features are attached below a balancing And does
@@ -20,3 +21,39 @@ Print Assumptions C18_refuted_hash_order.
 
 Example sort_example : sort_nat [5; 2; 9]%nat = [2; 5; 9]%nat /\ sort_nat [9; 5; 2]%nat = [2; 5; 9]%nat.
 Proof. split; reflexivity. Qed.
+
+(* ---- the whole d4 loader as a Gallina function (Model/LoadD4.v; tied to build_d4_ddnnf +
+   rebuild by the exact correspondence of harness kind ld4) ----
+
+   load_d4_h ord = the loader in /repo now, with the iteration order of the hash set in
+   balance_or_children as an explicit parameter (an arbitrary permutation oracle): the loaded
+   node vector and number_of_variables do not depend on it ... *)
+Theorem C18_loader_function : forall (ord1 ord2 : list nat -> list nat) toks n,
+  (forall l, Permutation (ord1 l) l) -> (forall l, Permutation (ord2 l) l) ->
+  load_d4_h ord1 toks n = load_d4_h ord2 toks n.
+Proof. exact loader_function. Qed.
+Print Assumptions C18_loader_function.
+
+(* ... and equal load_d4, the parameter-free function the correspondence compares with the code *)
+Theorem C18_loader_is_load_d4 : forall (ord : list nat -> list nat) toks n,
+  (forall l, Permutation (ord l) l) -> load_d4_h ord toks n = load_d4 toks n.
+Proof. exact load_d4_h_is_load_d4. Qed.
+Print Assumptions C18_loader_is_load_d4.
+
+(* the loader before the repair (features attached in hash order): two iteration orders, two
+   node vectors, on `o 1 0 / t 2 0 / 1 2 1 2 3 0 / 1 2 -1 0` with 3 features *)
+Theorem C18_refuted_loader_v0 : exists (toks : list d4token) (n : nat) (ord1 ord2 : list nat -> list nat),
+  (forall l, Permutation (ord1 l) l) /\ (forall l, Permutation (ord2 l) l) /\
+  load_d4_v0 ord1 toks n <> load_d4_v0 ord2 toks n.
+Proof. exact loader_v0_refuted. Qed.
+Print Assumptions C18_refuted_loader_v0.
+
+(* non-vacuity: the loader model is not constantly None - it reproduces the vectors the
+   implementation dumped for tests/data/small_ex_d4.nnf and for a file with smoothing, a free
+   feature, a false edge and a shared node; the witness of the refutation loads under both orders *)
+Example loader_nonvacuous :
+  load_lines small_ex_d4_text 4 = Some (small_ex_d4_vector, 4%nat) /\
+  load_lines mixed_d4_text 5 = Some (mixed_d4_vector, 5%nat) /\
+  load_d4_h (@rev nat) mixed_d4 5 = Some (mixed_d4_vector, 5%nat) /\
+  load_d4_v0 (fun l => l) f5_file 3%nat <> None /\ load_d4_v0 (@rev nat) f5_file 3%nat <> None.
+Proof. repeat split; vm_compute; try reflexivity; discriminate. Qed.
